@@ -340,9 +340,24 @@ def one_schedule(ctx, name, seed, gran, chooser, focus=False):
                     "yield_points": s.yields, "context_switches": s.switches}, limit=3)
 
 
+def warmup(names):
+    """The first traced schedule of a process sees fewer trace events than later ones (CPython instruments code
+    objects lazily), so schedules recorded later would not replay in a fresh process.  Two throw-away schedules
+    per scenario and granularity bring every process into the same steady state before anything is recorded."""
+    from ..verdict import Ctx
+
+    scratch = Ctx("C15", "quick", 0)
+    for name in names:
+        for gran in ("line", "opcode"):
+            for focus in (False, True):
+                for _ in range(2):
+                    one_schedule(scratch, name, 0, gran, S.ReplayChooser([]), focus=focus)
+
+
 def run(ctx):
     names = sorted(SCENARIOS)
     mine = [n for i, n in enumerate(names) if i % ctx.shards == ctx.shard % len(names)] if ctx.shards <= len(names) else [names[ctx.shard % len(names)]]
+    warmup(mine)
     bounds = {"op": (2, 3), "line": (2, 3), "opcode": (1, 2)}
     limits = {"op": (120, 1500), "line": (150, 2500), "opcode": (150, 2500)}
     for name in mine:
@@ -388,4 +403,5 @@ def run(ctx):
 
 def replay(ctx, rep):
     w = rep["witness"]
+    warmup([w["scenario"]])
     one_schedule(ctx, w["scenario"], w["scenario_seed"], w["granularity"], S.ReplayChooser(w["choices"]), focus=w.get("focus", False))
